@@ -2,3 +2,8 @@
 //! module without changing any visibility in the repository.
 #![allow(dead_code, unused_imports)]
 use super::*;
+
+/// read-only view of the buffered messages (private field)
+pub fn messages(acc: &BatchAccumulator) -> &Vec<Arc<RetainedMessage>> {
+    &acc.messages
+}
